@@ -75,6 +75,9 @@ func (this *Addr) Deserialization(source *common.ZeroCopySource) error {
 	if count > comm.MAX_ADDR_NODE_CNT {
 		count = comm.MAX_ADDR_NODE_CNT
 	}
+	if count > uint64(len(this.NodeAddrs)) {
+		return io.ErrUnexpectedEOF
+	}
 	this.NodeAddrs = this.NodeAddrs[:count]
 
 	return nil
